@@ -92,7 +92,9 @@ class Ledger(Base):
 
     def __init__(self, case, phase):
         super().__init__(case, phase)
-        self.manual: Set[str] = set()       # instance ids touched by commands
+        # instance ids touched by commands (carried across incarnations)
+        st = (phase.get('carry') or {}).get('ledger') or {}
+        self.manual: Set[str] = set(st.get('manual', []))
         self.commands = 0
         self.submits: Dict[str, List[str]] = defaultdict(list)  # id -> [NN]
         self.late_polled: List[list] = []
@@ -137,7 +139,8 @@ class Ledger(Base):
         return {'late_polled_outputs_on_removed_tasks': self.late_polled,
                 'n_late_polled': len(self.late_polled),
                 'messages_after_task_left_pool': self.late_msgs,
-                'n_late_msgs': len(self.late_msgs)}
+                'n_late_msgs': len(self.late_msgs),
+                '_state': {'manual': sorted(self.manual)}}
 
     def actual_facts(self) -> Set[Tuple[str, int, str]]:
         """Outputs actually completed by jobs so far (the world's truth),
